@@ -555,6 +555,30 @@ func (x *TExec) opConnectionBind(st *TStep) { //nolint:cyclop
 
 		return
 	}
+	if tc == nil && !onCtrl && st.Seed&1 == 1 && c.nonce != "" {
+		// a bind that will be refused (no such connection id) with another request right behind
+		// it in the same segment: the connection stays a framed TURN connection, so both frames
+		// are answered, in order
+		b := &ref.Msg{Method: ref.MethodBinding, Class: ref.ClassRequest, TxID: c.nextTx()}
+		if _, werr := dc.Write(append(x.sign(c, ui, m), b.Encode()...)); werr != nil {
+			return
+		}
+		x.settle()
+		msgs, _, _ := drainFrames(dc, &rbuf)
+		x.St.inc("tcp:refused-bind-with-a-request-behind-it")
+		switch {
+		case len(msgs) >= 1 && msgs[0].TxID == m.TxID && msgs[0].Class == ref.ClassSuccess:
+			x.fail([]string{"C16", "C03"}, "connectionbind-should-fail", "ConnectionBind for the unknown id %#x answered with success", id)
+		case len(msgs) == 1 && msgs[0].Class == ref.ClassError && msgs[0].ErrorCode() == 438:
+			// (stale nonce: both refused alike; nothing to learn here)
+		case len(msgs) != 2 || msgs[0].TxID != m.TxID || msgs[1].TxID != b.TxID || msgs[1].Class != ref.ClassSuccess:
+			x.fail([]string{"C10", "C09", "C19"}, "frame-behind-refused-bind-lost", "a refused ConnectionBind and a Binding request written in one segment were answered with %d messages (expected the error and the Binding success, in this order)", len(msgs))
+		}
+		_ = dc.Close()
+		x.settle()
+
+		return
+	}
 	resp, _ := x.request(c, dc, &rbuf, ui, m)
 	if x.stop {
 		return
